@@ -6,6 +6,7 @@ CONSTANTS
   WithPlans = FALSE
   BlockBudget = 1000
   MinDecls = 0
+  CallsOnly = FALSE
   Rich = FALSE
 INVARIANTS ScopeWellFormed ReplayAgrees MergeIndependent
 CHECK_DEADLOCK FALSE
